@@ -18,7 +18,7 @@ func init() {
 	fw.Register(&fw.Prop{
 		ID: "C14",
 		Rule: "differential monitor of Relu / LeakyRelu / Sigmoid / Tanh / Softmax forward values: every input shape of rank 0..R (sizes 1..3; R = 4 in quick, 5 in thorough), Softmax for EVERY Dim 0..rank-1 and the nil config, LeakyRelu slopes {nil config, 0, 0.01, 0.5, 1, 2, -0.3}, input value classes {unique reals, exact 0 / -0 mixed in, +-700 and other large magnitudes with different fibres at opposite extremes, +-1e-300}; one activation object is reused for two different inputs. Each element is compared with the defining scalar function (Softmax: e^x / sum e^x over the fibre along Dim computed with explicit index arithmetic); shape preserved; Softmax >= 0 and every fibre sums to 1 +- 1e-12. " +
-			"Non-trivial: >= 2 elements; distinct = (activation, config, shape, value class).",
+			"Non-trivial: >= 2 elements; distinct = (activation, config, shape, value class). Later additions: one long dimension (127..2049) with Softmax along it or across it; configs overwritten right after construction.",
 		Assumptions: []string{"values compared within 1e-12 relative (+1e-300 absolute)"},
 		FloorQuick:  10000, FloorThor: 40000,
 		Run: runC14,
